@@ -1,5 +1,30 @@
 from pyvc.runner import register_modules
 
-register_modules("C17", "bounded.C17_api")
-LEVEL = "exploration"
-ASSUMPTIONS = ["half-duplex conforming peer (the other real endpoint)", "bounded scope as stated in evidence.bounded", "block codec / checksum: C16; ByteQueue: C04"]
+register_modules("C17", "contracts.C17_line", "bounded.C17_api")
+LEVEL = "other"
+EXPLANATION = (
+    "Per-endpoint step contracts on the real handshake loops, discharged as VCs in the ghost-stream view (every chunking "
+    "of the line): SecsIProtocol._process_received_data answers each announced block EOT first, reads exactly length+3 "
+    "bytes, hands the decoded block to the dispatcher (in order, once, only with EOT as the last byte on the line and a "
+    "right checksum) and then writes ACK, or writes NAK without handing over and stops; "
+    "SecsIProtocol._process_send_queue announces each pending block by ENQ, writes it only after the peer's EOT was "
+    "consumed, resolves it with success exactly when the peer's answer is ACK, never parks in Queue.get and ends with the "
+    "queue drained.  ByteQueue.pop_byte / wait_for_byte are verified on the real methods.  The composition of the two "
+    "endpoints (the sender's assumption 'the peer answers EOT then one byte' is the receiver's guarantee), multi-block "
+    "reassembly and the return value of send_message are covered by the bounded two-endpoint pass only."
+)
+ASSUMPTIONS = [
+    "A-BQ-ABS: at call sites ByteQueue.wait_for / wait_for_byte / pop_byte / __len__ are used through the ghost-stream contracts "
+    "(justified by the contracts verified on the real methods: front consumption, no loss, no reordering under append-only interference)",
+    "A-EXT: threading.Condition.wait_for(pred) returns only when pred() holds; while waiting other threads may only append to the buffer (rely) - used by the contract of the real ByteQueue.wait_for",
+    "A-EXT: Connection.send_data appends its argument to the line; queue.Queue seen through AbsQueue (empty/get with a pending counter); "
+    "BlockSendInfo.resolve and ProtocolDispatcher.queue_block are call-outs whose obligations are their `requires`",
+    "A-HALF-DUPLEX: no contention (the peer does not announce a block while this side sends) - the property's own premise",
+    "A-SECSI-LEN: every announced block has a length byte >= 10 (a length byte < 10 makes SecsIBlock.decode raise struct.error in the "
+    "receiver thread; with no T1/T2 timeouts in the code a corrupted length byte stalls the line in either direction - outside the property's premise "
+    "of checksum corruption, recorded in DESIGN.md)",
+    "partial correctness: a wait for bytes that never arrive blocks (no T1/T2/T4 timeouts exist in the code)",
+    "PS-CONGRUENCE lemma instances (arrays that agree below n have equal prefix sums; base/step proved in C16, induction schema outside the solver)",
+    "block codec / checksum: C16's verified contract of SecsIBlock.decode used at the call site",
+    "bounded two-endpoint pass: scope as stated in evidence.bounded",
+]
